@@ -24,7 +24,8 @@ IMPORTS = ("From LV Require Import Common.Cases Wordlist.SerializeStr Wordlist.S
 BITS = {0: "correspondence: model text / model parse / model pairs differ from the implementation",
         1: "round trip: the loaded object differs from the saved one (ids, columns, cell values or value types)",
         2: "derived state: the word pairs of the loaded LexStat differ from those of the saved one",
-        3: "analysis: the same deterministic analysis gives another result on the loaded object",
+        3: "analysis / msa state: the alignments per cognate set (rows, segments, swaps/local/consensus annotations) or the "
+           "result of the same deterministic analysis differ between the saved and the loaded object",
         4: "dst: a distance read back is not the four-decimal rounding of the value saved",
         5: "scorer: a score read back is not the two-decimal rounding of the value saved",
         6: "re-analysis: align() on an already aligned Alignments object gives another result after save/load"}
@@ -437,20 +438,22 @@ def _analyse(obj, case):
         return None
     if an == "align":
         obj.align(method="progressive", swap_check=bool(case.get("swap_check")))
-        return _msa_state(obj)
+        return _msa_state(obj)                # both objects are analysed afresh: annotations included
     ref = {"sca": "scaid", "edit-dist": "editid", "turchin": "turchinid"}[an]
     obj.cluster(method=an, threshold=case.get("threshold", 0.45), ref=ref, override=True)
     return [[int(k), [str(obj[k, ref])]] for k in sorted(obj)]
 
 
-def _msa_state(obj):
+def _msa_state(obj, annotations=True):
     """The alignments per cognate set as the object holds them: rows (id, taxon, aligned and plain segments) and the
-    per-set annotations (swaps, local, consensus) when present."""
+    per-set annotations (swaps, local, consensus) when present.  The annotations live in the <msa> blocks only: they
+    are compared across save/load only when the blocks are written (ignore=[]); plain output (ignore='all', "output
+    only plain tsv") does not carry them by its documented meaning."""
     out = []
     for key, msa in sorted(obj.msa["cogid"].items()):
         rows = ["%s|%s|%s|%s" % (i, t, " ".join(a), " ".join(q))
                 for i, t, a, q in zip(msa["ID"], msa["taxa"], msa["alignment"], msa["seqs"])]
-        for ann in ("swaps", "local", "consensus"):
+        for ann in ("swaps", "local", "consensus") if annotations else ():
             if msa.get(ann):
                 rows.append("%s=%s" % (ann, " ".join(str(tuple(x)) if isinstance(x, (list, tuple)) else str(x)
                                                      for x in msa[ann])))
@@ -488,7 +491,8 @@ def ser_run(case):
                 step["pairs_after"] = _pairs(loaded)
             if case["type"] == "alignments":
                 # the alignments per cognate set are derived state: they must survive as they are
-                step["analysis"] = [_msa_state(obj), _msa_state(loaded)]
+                ann = case.get("ignore", "all") == []
+                step["analysis"] = [_msa_state(obj, ann), _msa_state(loaded, ann)]
             if case.get("analysis"):
                 a = _analyse(obj, case)
                 b = _analyse(loaded, case)
@@ -585,6 +589,13 @@ class _Ser:
                "load=" + res["load"][0]]
         kinds = sorted({c[0] for _, cells in res["rows"] for c in cells})
         out += ["has_" + k for k in kinds]
+        for which in ("analysis", "analysis2"):
+            for side in res.get(which) or []:
+                if any(r.startswith("swaps=") for _, rows in side or [] for r in rows):
+                    out.append("msa_with_swaps")
+                    break
+        if case["case"].get("ignore") == []:
+            out.append("blocks_written")
         return out
 
     @staticmethod
